@@ -29,6 +29,19 @@ fn spell_coord(class: &str, v: i64, rng: &mut Rng) -> String {
                 format!("{v}.{frac}")
             }
         }
+        // the position is read in SINGLE precision before it is range-checked and truncated: a text just below v
+        // (or just above the limit) is v
+        "f32up" => {
+            if v == 131072 {
+                "131072.001".to_string()
+            } else if v == -131072 {
+                "-131072.001".to_string()
+            } else if v > 0 {
+                format!("{}.999999999", v - 1)
+            } else {
+                format!("{}.999999999", v + 1)
+            }
+        }
         _ => rng.pick(&["x", "", "NaN", "131073", "-131073", "1e10", "inf", "1e400", "--5"]).to_string(),
     }
 }
@@ -543,6 +556,18 @@ pub fn c06_relation(args: &Args, s: &mut Summary) {
                 spell_line(&ln, &mut rng)
             })
             .collect();
+        // a third of the runs are BYTE files: some lines carry bytes that are not valid UTF-8 (inside a number: rejected;
+        // inside a file name: accepted); what the parser sees is the lossy conversion of each line
+        let bytes_run = run % 3 == 2;
+        let blines: Vec<Vec<u8>> = lines.iter().map(|t| {
+            let mut b = t.clone().into_bytes();
+            if bytes_run && rng.chance(1, 4) {
+                let at = rng.below(b.len() + 1);
+                b.insert(at, *rng.pick(&[0xE9u8, 0xFF, 0xC3, 0x80]));
+            }
+            b
+        }).collect();
+        let lines: Vec<String> = blines.iter().map(|b| String::from_utf8_lossy(b).to_string()).collect();
         let r = guarded(&format!("hitobj c06 run {run}"), || {
             let mut st = HitObjectsState::create(14);
             let verdicts: Vec<bool> = lines.iter().map(|t| HitObjects::parse_hit_objects(&mut st, t).is_ok()).collect();
@@ -555,17 +580,17 @@ pub fn c06_relation(args: &Args, s: &mut Summary) {
             }
             let without: Vec<Value> = st2.hit_objects.iter().map(proj_obj).collect();
             let file = |keep: &dyn Fn(usize) -> bool| {
-                let mut f = String::from("osu file format v14\n\n[HitObjects]\n");
-                for (i, t) in lines.iter().enumerate() {
+                let mut f: Vec<u8> = b"osu file format v14\n\n[HitObjects]\n".to_vec();
+                for (i, t) in blines.iter().enumerate() {
                     if keep(i) {
-                        f.push_str(t);
-                        f.push('\n');
+                        f.extend_from_slice(t);
+                        f.push(b'\n');
                     }
                 }
                 f
             };
-            let a = rosu_map::from_str::<HitObjects>(&file(&|_| true));
-            let b = rosu_map::from_str::<HitObjects>(&file(&|i| verdicts[i]));
+            let a = rosu_map::from_bytes::<HitObjects>(&file(&|_| true));
+            let b = rosu_map::from_bytes::<HitObjects>(&file(&|i| verdicts[i]));
             let same_decode = matches!((&a, &b), (Ok(x), Ok(y)) if x == y);
             (verdicts, with == without, same_decode)
         });
